@@ -283,6 +283,12 @@ class HedSchemaTagSection(HedSchemaSection):
             if node.has_attribute(HedKey.ExtensionAllowed):
                 # Make sure we sort / characters to the front.
                 values.sort(key=lambda x: x.long_tag_name.replace("/", "\0"))
+            else:
+                # keep the given sibling order, but list every tag after its parent (tree order)
+                first = {}
+                for index, entry in enumerate(values):
+                    first.setdefault(entry.name, index)
+                values.sort(key=lambda x: [first.get(x.name.rsplit("/", k)[0], 0) for k in range(x.name.count("/"), -1, -1)])
 
         # Sort ones without inLibrary to the end, and then sort library ones at the top.
         split_list.sort(key=lambda x: (x[0].has_attribute(HedKey.InLibrary, return_value=True) is None,
